@@ -1056,6 +1056,11 @@ def cases(tier, seed):
         # one model per time point built from the same parsed input
         out.append({'name': 'timepoints-%d' % i, 'kind': 'timepoints',
                     'seed': [seed, 6, i]})
+    for i in range(3 if quick else 24):
+        # power from the binary flux files with a user power file on top
+        # of it (the user file has its own axial mesh)
+        out.append({'name': 'arcuser-%d' % i, 'kind': 'arcuser',
+                    'seed': [seed, 7, i]})
     rng = np.random.default_rng([seed, 5])
     npt = 2 if quick else 8
     for d in DELTAS:
@@ -1139,10 +1144,122 @@ def run_timepoints(case, res):
         res.sample({'case': case, 'features': feats, 'order': order})
 
 
+ARC_INPUT = """
+[Setup]
+    axial_plane = {plane}
+[Power]
+    user_power = user_power.csv
+    [[ARC]]
+        fuel_material   = metal
+        fuel_alloy      = zr
+        coolant_heating = sodium
+        pmatrx = arc/PMATRX
+        geodst = arc/GEODST
+        ndxsrf = arc/NDXSRF
+        znatdn = arc/ZNATDN
+        labels = arc/LABELS
+        nhflux = arc/NHFLUX
+        ghflux = arc/GHFLUX
+[Core]
+    coolant_inlet_temp = 623.15
+    coolant_material   = sodium
+    length             = 3.75
+    gap_model          = none
+    assembly_pitch     = 0.12
+    bypass_fraction    = 0.0
+[Assembly]
+    [[fuel]]
+        num_rings      = 10
+        pin_pitch      = 0.00654
+        pin_diameter   = 0.00540
+        clad_thickness = 0.00035
+        wire_pitch     = 0.2032
+        wire_diameter  = 0.0011
+        duct_ftf       = 0.10964, 0.11568
+        duct_material  = ht9
+        [[[AxialRegion]]]
+            [[[[lower_refl]]]]
+                z_lo       = 0.0
+                z_hi       = {zlo}
+                vf_coolant = 0.25
+            [[[[upper_refl]]]]
+                z_lo       = {zhi}
+                z_hi       = 3.75
+                vf_coolant = 0.25
+[Assignment]
+    [[ByPosition]]
+        fuel = 1, 1, 1, flowrate={flow}
+"""
+
+
+def run_arcuser(case, res):
+    """Core power from the binary flux files of the repository's intact
+    single-assembly data set, with a user power file for that assembly
+    whose axial cells end at heights the flux mesh does not contain."""
+    import shutil
+    rng = np.random.default_rng(case['seed'])
+    ds = os.path.join(env.SRC, 'tests', 'test_data', 'single_asm_refl')
+    if not os.path.exists(os.path.join(ds, 'GEODST')):
+        res.status('rejected', 'binary data set not present')
+        res.tag('arc_dataset_missing')
+        return
+    L = 3.75
+    zlo = float(np.round(rng.uniform(0.9, 1.4), 3))
+    zhi = float(np.round(rng.uniform(2.6, 3.1), 3))
+    inner = sorted(set(float(np.round(x, 4)) for x in rng.uniform(
+        0.2, 3.5, int(rng.integers(1, 4)))))
+    zpow = [0.0] + inner + [L]
+    plane = float(np.round(rng.uniform(0.3, 3.4), 4))
+    key = {'kind': 'arcuser', 'unit': 'm', 'stress': 'arc+user', 'd': 0.0}
+    with drive.scratch() as wd:
+        shutil.copytree(ds, os.path.join(wd, 'arc'))
+        rows = []
+        for k in range(len(zpow) - 1):
+            for p_ in range(1, 272):
+                rows.append('1,1,%r,%r,%d,%r' % (zpow[k], zpow[k + 1], p_,
+                                                 100.0 * (1 + k)))
+        with open(os.path.join(wd, 'user_power.csv'), 'w') as f:
+            f.write('\n'.join(rows) + '\n')
+        path = os.path.join(wd, 'input.txt')
+        with open(path, 'w') as f:
+            f.write(ARC_INPUT.format(plane=plane, zlo=zlo, zhi=zhi,
+                                     flow=float(rng.uniform(10.0, 30.0))))
+        try:
+            inp = drive.read_input(path)
+        except drive.Rejected as e:
+            res.status('rejected', str(e))
+            res.tag('rejected:' + e.stage)
+            return
+        with Hooks() as hk:
+            mon = MeshMonitor(hk)
+            try:
+                r = drive.build_reactor(inp, path=os.path.join(wd, 'run'))
+            except NoProgress as e:
+                no_progress(res, key, e, 'construction')
+                return
+            except drive.Rejected as e:
+                res.status('rejected', str(e))
+                res.tag('rejected:' + e.stage)
+                return
+            expected = [('core', 0.0), ('core', L), ('region', zlo),
+                        ('region', zhi), ('plane', plane)]
+            expected += [('power', v) for v in zpow]
+            # the flux mesh the binary files carry is a power mesh too
+            for a in r.assemblies:
+                expected += [('power', float(v) * 1e-2)
+                             for v in np.asarray(a.power.z_finemesh)]
+            oracle(res, key, mon, expected, L, 'none')
+        res.tag('arc_plus_user_power')
+        res.nontrivial('arcuser/%s' % case['seed'][-1])
+        res.sample({'case': case, 'zpow': zpow, 'plane': plane})
+
+
 def run_case(case):
     res = Result(case)
     try:
-        if case['kind'] == 'timepoints':
+        if case['kind'] == 'arcuser':
+            run_arcuser(case, res)
+        elif case['kind'] == 'timepoints':
             run_timepoints(case, res)
         elif case['kind'] in ('single', 'core'):
             run_real(case, res)
